@@ -263,6 +263,8 @@ package godi
 //@   pure
 //@   safety off
 //
+// the cache key under which an instance is stored is the identity of the registration it is stored for
+//@ pred idOf(d *Descriptor, k instanceKey) = d != nil && k == mk("instanceKey", d.Type, d.Key, d.Group)
 //@ func scope.createInstance
 //@   mode conc
 //@   interferes
@@ -288,6 +290,7 @@ package godi
 //@   ensures[C15] failed_analysis_stores_nothing: ncalls("reflection.Analyzer.Analyze") == 1 && callret("reflection.Analyzer.Analyze", 0, 1) != nil ==>
 //@        ncalls("scope.setInstance") == 0 && ncalls("reflection.ConstructorInvoker.Invoke") == 0 && typeis(result1, "*ReflectionAnalysisError")
 //@        && as(result1, "*ReflectionAnalysisError").Cause == callret("reflection.Analyzer.Analyze", 0, 1)
+//@   ensures[C04,C02,C01] every_output_is_cached_under_its_registration_identity: forall c int :: 0 <= c && c < ncalls("scope.setInstance") ==> idOf(callarg("scope.setInstance", c, 1, "*Descriptor"), callarg("scope.setInstance", c, 2, "instanceKey"))
 //@   ensures[C10,C01] every_store_is_for_this_scope: forall i int :: 0 <= i && i < ncalls("scope.setInstance") ==> callarg("scope.setInstance", i, 0) == s
 //@   at before return#2 : assert[C15] nil_instance_stores_nothing: ncalls("scope.setInstance") == 0
 //@   at before return#3 : assert[C01,C10,C04] instance_stored_once: ncalls("scope.setInstance") == 1 && callarg("scope.setInstance", 0, 1) == descriptor
@@ -307,8 +310,10 @@ package godi
 //@   loop 1
 //@     invariant stored_so_far: ncalls("scope.setInstance") == idx && (forall i int :: 0 <= i && i < idx ==> callarg("scope.setInstance", i, 3) == registrations[i].Value)
 //@     invariant own_scope: forall c int :: 0 <= c && c < ncalls("scope.setInstance") ==> callarg("scope.setInstance", c, 0) == s
+//@     invariant every_output_is_cached_under_its_registration_identity: forall c int :: 0 <= c && c < ncalls("scope.setInstance") ==> idOf(callarg("scope.setInstance", c, 1, "*Descriptor"), callarg("scope.setInstance", c, 2, "instanceKey"))
 //@   loop 2
 //@     invariant own_scope: forall c int :: 0 <= c && c < ncalls("scope.setInstance") ==> callarg("scope.setInstance", c, 0) == s
+//@     invariant every_output_is_cached_under_its_registration_identity: forall c int :: 0 <= c && c < ncalls("scope.setInstance") ==> idOf(callarg("scope.setInstance", c, 1, "*Descriptor"), callarg("scope.setInstance", c, 2, "instanceKey"))
 //@     invariant stored_so_far: forall j int :: 0 <= j && j < idx && !info.Returns[j].IsError ==>
 //@        (exists c int :: 0 <= c && c < ncalls("scope.setInstance") && callarg("scope.setInstance", c, 3) == ext("(reflect.Value).Interface", "any", results[info.Returns[j].Index]))
 //
